@@ -158,6 +158,9 @@ def judge(args):
     flavours = [{"src": "cls", "call": "asyncdef"}]
     if "C04" in want:
         flavours.append({"src": "agen", "call": "asyncdef"})
+    if "C02" in want and is_agg:
+        # the input given as async iterator, list, or one-shot iterator
+        flavours = [{"src": f, "call": "asyncdef"} for f in ("cls", "list", "iter")]
     if "C19" in want:
         # the shapes of the quantifier: list / iterator / async iterator, every callable flavour
         fault_kinds = ["exc", "typeerr"] if kind == "fault" else ["exc"]
@@ -167,7 +170,7 @@ def judge(args):
             flavours = [{"src": f, "call": "asyncdef"} for f in ("cls", "agen", "list", "iter")]
     for fl in flavours:
         for fk in fault_kinds:
-            if fl["src"] != "cls" and not ({"C04", "C19"} & want):
+            if fl["src"] != "cls" and not ({"C04", "C19", "C02"} & want):
                 continue
             o = tm.execute(case, L, flav=fl, susp=opts.get("susp", 1), fault_kind=fk)
             cnt("impl_replays")
@@ -185,7 +188,7 @@ def judge(args):
                          {"projection": "ending", "expected": ee, "observed": oe})
                 cnt("C01_cases")
             # C02: result of aggregations, argument objects untouched
-            if "C02" in want and canonical and kind == "full" and is_agg:
+            if "C02" in want and fk == "exc" and kind == "full" and is_agg:
                 e, g = result_projection(exp_log), result_projection(obs_log)
                 if e != g:
                     if e[0] == g[0] == "return":
@@ -196,7 +199,9 @@ def judge(args):
                             cls = "wrong-one-of-equal-elements"
                     else:
                         cls = f"{g[0]}-instead-of-{e[0]}"
-                    viol("C02", cls, {"projection": "result", "expected": e, "observed": g})
+                    if fl["src"] != "cls":
+                        cls += "+" + {"list": "list-input", "iter": "one-shot-iterator-input"}[fl["src"]]
+                    viol("C02", cls, {"projection": "result", "expected": e, "observed": g, "input": fl["src"]})
                 keycalls_e = [x for x in exp_log if x["ev"] == "call"]
                 keycalls_o = [x for x in obs_log if x["ev"] == "call"]
                 dumps = lambda x: json.dumps(x, sort_keys=True)  # noqa: E731
